@@ -7,14 +7,16 @@ FUN = ['FIX8::Message::encode(char**)', 'FIX8::BaseField::encode(char*)', 'FIX8:
 def run(ctx):
     kf = codec.kfs('C02'); defs = kf_defines(kf)
     codec.world(ctx)
-    wins = [(0, 120), (985, 1015), (9985, 10015)] + ([(99985, 100015), (999985, 1000015)] if ctx.tier == 'thorough' else [])
+    # windows of payload lengths around every digit-count boundary of the hlen expression plus interior values; inside a window every length is
+    # one concrete-layout run of the real encoder (case split in the harness), the byte sum is symbolic
+    wins = [(5, 40), (85, 115), (985, 1015), (9985, 10015), (500, 515), (5000, 5015)] + ([(41, 84), (99985, 100015), (999985, 1000015), (50000, 50015)] if ctx.tier == 'thorough' else [])
     for lo, hi in wins:
-        ctx.add(Harness('C02_frame_%d_%d' % (lo, hi), VERIF + '/harness/C02_frame.c', defines=defs + ['LO=%d' % lo, 'HI=%d' % hi, 'VF_MAXCOPY=%d' % codec.FLD], unwind=14,
+        ctx.add(Harness('C02_frame_%d_%d' % (lo, hi), VERIF + '/harness/C02_frame.c', defines=defs + codec.WORLD_DEFS + ['LO=%d' % lo, 'HI=%d' % hi, 'VF_MAXCOPY=%d' % codec.FLD], unwind=14,
                         unwindset=codec.us_decode(6), flags=['-I', VERIF + '/shims'], object_bits=13, timeout=900, functions=FUN,
-                        stubs=['MessageBase::encode(char*) const (header, body, trailer sub-encoders) := reports a symbolic number of bytes n1, n2, n3 at the position it is given; layout checked',
+                        stubs=['MessageBase::encode(char*) const (header, body, trailer sub-encoders) := reports a constant number of bytes n1, n2, n3 at the position it is given (two splits per length: 5/T-5/0 and 7/T-13/6); layout checked',
                                'Message::calc_chksum := a sum chosen by the harness; start pointer and length checked (kernel == byte sum: C07)', 'std::string, operator new: models/cxx.c; logging off'],
-                        bounds='payload sizes n1 + n2 + n3 in [%d, %d] (all splits), every checksum 0..255; output buffer of exactly 32 + payload + 8 bytes; BeginString FIX.4.2' % (lo, hi),
-                        desc='preamble width, BodyLength digits, CheckSum field, return value', backend='default'))
+                        bounds='every payload size in [%d, %d] (one concrete-layout run per size and split), every checksum 0..255; output buffer with canaries before the preamble and behind the NUL; BeginString FIX.4.2' % (lo, hi),
+                        desc='preamble width, BodyLength digits, CheckSum field, return value', backend='default', tier='quick' if hi <= 10015 else 'thorough'))
     ctx.assumptions += ['position ordering of fields inside a component (the _pos multimap) and group layout are not part of this harness (ordering harness: not built, see tools/reports/C02.md)',
                         'Message::encode(f8String&) only adds a stack buffer of FIX8_MAX_MSG_LENGTH + 32 bytes around the same code: capacity is C03\'s subject']
     ctx.solve(jobs=4)
@@ -24,6 +26,6 @@ def run(ctx):
 
 def replay(ctx, cx, h=None):
     """native: a real FIX42UTEST message whose encoded payload has the counterexample's total length; the framing is recomputed independently"""
-    c = cx.get('cx', cx); T = int(c.get('cx_n1', 0)) + int(c.get('cx_n2', 0)) + int(c.get('cx_n3', 0))
+    c = cx.get('cx', cx); T = int(c.get('cx_T', 0)) or int(c.get('cx_n1', 0)) + int(c.get('cx_n2', 0)) + int(c.get('cx_n3', 0))
     rc, out = codec.run_replay(ctx, 'frame', T)
     return rc != 0, codec._short(out)
